@@ -1,6 +1,6 @@
 SPECIFICATION Spec
 CONSTANTS
-  DimNames = {"[A]", "[B]", "[G]", "[H]"}
+  DimNames = {"[A]", "[B]", "[G]", "[H]", "[R]"}
   Dev_PowKeepsZeros = FALSE
   CtxPool <- Pool
   BaseReg <- Base
